@@ -454,12 +454,21 @@ class SymNum:
         if m is not None:
             if m == 0:
                 return self
+            if self.bits is not None and m > 0:
+                w = max(len(self.bits), m.bit_length())
+                bs = list(self.bits) + [z3.BoolVal(False)] * (w - len(self.bits))
+                return _from_bits([z3.BoolVal(True) if (m >> i) & 1 else b for i, b in enumerate(bs)])
             if self.lz and 0 < m < (1 << self.lz):
                 return SymNum(self.t + z3.IntVal(m), lz=min(self.lz, (m & -m).bit_length() - 1))
             return SymNum(self.t + z3.IntVal(m) - _and_const(self.t, m))
         o = _lift(o)
         if o is NotImplemented:
             return NotImplemented
+        if self.bits is not None and o.bits is not None:
+            w = max(len(self.bits), len(o.bits))
+            x = list(self.bits) + [z3.BoolVal(False)] * (w - len(self.bits))
+            y = list(o.bits) + [z3.BoolVal(False)] * (w - len(o.bits))
+            return _from_bits([z3.Or(p, q) for p, q in zip(x, y)])
         return _bitop_sym(self, o, "or")
 
     __ror__ = __or__
